@@ -67,7 +67,9 @@ func (f *rotateFile) rotate() error {
 	// earlier rotated file of the same second
 	target := fmt.Sprintf("%s.%s", f.path, now.Format("20060102150405"))
 	for i := 1; ; i++ {
-		if _, err := os.Stat(target); os.IsNotExist(err) {
+		if _, err := os.Stat(target); err != nil {
+			// free, or not a name that can be looked at (too long, parent
+			// not accessible): the rename reports that
 			break
 		}
 
